@@ -1199,16 +1199,24 @@ class ClientObservation:
             self._future.set_result(item)
 
         def push_err(self, e):
-            if self._future.done():
+            if self._future.done() and not self._future.cancelled():
                 # An item has not been picked up yet. While items may
                 # overwrite each other, the terminal error must not overwrite
                 # the last item (typically the final response); it is
                 # delivered once that item has been taken.
                 self._pending_error = e
             else:
+                if self._future.done():
+                    # A cancelled waiter (eg. a wait_for around __anext__ that
+                    # timed out) took the future down with it; nothing is
+                    # waiting in there to be picked up.
+                    self._future = asyncio.get_running_loop().create_future()
                 self._future.set_exception(e)
 
         async def __anext__(self):
+            if self._future.cancelled():
+                # left behind by a cancelled earlier __anext__
+                self._future = asyncio.get_running_loop().create_future()
             f = self._future
             try:
                 result = await self._future
